@@ -397,11 +397,47 @@ def trace(rep, meta, sfx):
             if st.get("k") == "LetExpr" and from_get(st["init"]):
                 for (bid, nm) in hirq.pat_bindings(st["pat"]):
                     get_bound.add(bid)
+        lets_f = hirq.lets(fn["body"])
+
+        def extra_guards(n):
+            """Guards that are not enclosing ifs: the left operand of a short-circuit `&&`, and - for a call inside a
+            closure handed to `opt.map(..)` / `is_some_and(..)` - the condition under which `opt` is the looked-up
+            definition (`let definition = if already_seen { None } else { rules.get(ident) }`)."""
+            out, via = [], False
+            cur = n
+            for (p_, k_, i_) in ctx.ancestors(n):
+                if kind(p_) == "Binary" and p_["op"] == "&&" and k_ == "r":
+                    out.append(("if", p_["l"], True))
+                if kind(p_) == "MethodCall" and k_ == "args" and kind(peel(cur)) == "Closure" \
+                        and p_["m"] in ("map", "is_some_and", "and_then", "map_or", "map_or_else", "filter"):
+                    recv = peel(p_["recv"])
+                    hops = 0
+                    while kind(recv) == "Path" and recv.get("res") == "local" and recv["id"] in lets_f and hops < 3:
+                        recv = peel(lets_f[recv["id"]][0])
+                        hops += 1
+                    if from_get(recv):
+                        via = True
+                    if kind(recv) == "If" and recv.get("else") is not None:
+                        if from_get(recv["else"]) and not from_get(recv["then"]):
+                            out.append(("if", recv["cond"], False))
+                        elif from_get(recv["then"]) and not from_get(recv["else"]):
+                            out.append(("if", recv["cond"], True))
+                cur = p_
+            return out, via
+
+        def resolve_bool(e):
+            e = peel(e)
+            hops = 0
+            while kind(e) == "Path" and e.get("res") == "local" and e["id"] in lets_f and hops < 3:
+                e = peel(lets_f[e["id"]][0])
+                hops += 1
+            return e
         follow = []
         for n in walk(fn["body"]):
             if kind(n) in ("Call", "MethodCall") and callee(n) == fnpath:
-                gs = ctx.guards(n)
-                via_get = any(g[0] == "if" and kind(peel(g[1])) == "LetExpr" and from_get(g[1]) for g in gs)
+                xg, via_closure = extra_guards(n)
+                gs = ctx.guards(n) + xg
+                via_get = via_closure or any(g[0] == "if" and kind(peel(g[1])) == "LetExpr" and from_get(g[1]) for g in gs)
                 if not via_get and n["args"]:
                     root = hirq.place(n["args"][0])
                     via_get = bool(root) and root[1] in get_bound
@@ -422,13 +458,13 @@ def trace(rep, meta, sfx):
                 if g[0] == "if" and g[2] is True:
                     for cj in conj(g[1]):
                         cj = peel(cj)
-                        if kind(cj) == "Unary" and cj["op"] == "!" and is_contains(cj["e"]):
+                        if kind(cj) == "Unary" and cj["op"] == "!" and is_contains(resolve_bool(cj["e"])):
                             visited = True
                 # the same test in its other spellings: the else branch of `if trace.contains(..)`, or code after
-                # `if trace.contains(..) { return .. }`
-                if g[0] == "if" and g[2] is False and is_contains(g[1]):
+                # `if trace.contains(..) { return .. }`, or the test kept in a local first
+                if g[0] == "if" and g[2] is False and is_contains(resolve_bool(g[1])):
                     visited = True
-                if g[0] == "not" and is_contains(g[1]):
+                if g[0] == "not" and is_contains(resolve_bool(g[1])):
                     visited = True
             # ... and by nothing else that remembers earlier walks: whether following `name` finds a cycle depends on
             # the trace it is followed from (a reference to a rule already on the trace is skipped), so an answer
